@@ -56,7 +56,8 @@ func TestCheck(t *testing.T) {
 	r := kit.Start(t, "C17")
 	defer r.Finish()
 	r.Rule("case = PRNG script for one implementation (even index MemDB, odd MemDBV2): 1-4 keys (duty,pubkey[,sync subcommittee]), 1-16 reader goroutines, " +
-		"2-6 phases of concurrent actions (start Await, single/multi-key Store of first/equal/conflicting data, cancel reader, expire duty through the harness Deadliner) " +
+		"2-6 phases of concurrent actions (start Await, single/multi-key Store of first/equal/conflicting data, cancel reader, expire duty through the harness Deadliner); " +
+		"30% of the readers scribble over the value they received (signature bytes, memory behind pointers) right after its fingerprint was taken at return " +
 		"with a barrier after each phase; values are harness SignedData with yield points in Clone/MarshalJSON or real eth2 types; " +
 		"non-trivial = at least one Await that was pending before its key's store was issued returned that value and at least one Store was issued while >=2 Awaits were pending; " +
 		"distinct = hash of the generated script")
@@ -70,6 +71,7 @@ func TestCheck(t *testing.T) {
 		"awaits_returned_value": 1.0, "awaits_woken_by_later_store": 0.3, "awaits_cancelled": 0.3,
 		"stores_accepted": 0.5, "stores_rejected_conflict": 0.15, "multi_key_stores": 0.05, "expiries": 0.04,
 		"wakeup_checks": 1.5, "histories_checked/" + implV1: 0.4, "histories_checked/" + implV2: 0.4,
+		"results_scribbled_by_reader": 0.2, "unmodified_results_rechecked_at_end": 1.0,
 	} {
 		r.Require(key, int64(float64(n)*perCase))
 	}
@@ -114,6 +116,7 @@ type script struct {
 	DutyStatus []string   `json:"duty_deadline_status"`
 	Readers    int        `json:"readers"`
 	ReaderKeys []int      `json:"reader_keys"`
+	Mutators   []bool     `json:"reader_scribbles_its_result"`
 	Phases     [][]action `json:"phases"`
 	ValueYield int        `json:"value_yield_mode"`
 	DLYield    int        `json:"deadliner_yield_mode"`
@@ -179,8 +182,11 @@ func generate(rng *rand.Rand, impl string, acted *atomic.Int64) *generated {
 	} else {
 		sc.Family = "plain"
 		sc.ValueKind = "harness-probe"
-		if rng.Intn(4) == 0 {
+		switch k := rng.Intn(20); {
+		case k < 4:
 			sc.ValueKind = "core.SignedRandao"
+		case k < 8:
+			sc.ValueKind = "core.SignedVoluntaryExit"
 		}
 	}
 	for len(g.duties) < nDuties {
@@ -243,6 +249,8 @@ func generate(rng *rand.Rand, impl string, acted *atomic.Int64) *generated {
 				mk = func() core.SignedData { return newProbeData(id, ki, y) }
 			case "core.SignedRandao":
 				mk = func() core.SignedData { return newRandao(id) }
+			case "core.SignedVoluntaryExit":
+				mk = func() core.SignedData { return newExit(id) }
 			case "core.SyncCommitteeSelection":
 				mk = func() core.SignedData { return newSelection(id, k.Duty.Slot, k.Sub) }
 			default:
@@ -289,6 +297,7 @@ func generate(rng *rand.Rand, impl string, acted *atomic.Int64) *generated {
 			key = rng.Intn(nKeys)
 		}
 		sc.ReaderKeys = append(sc.ReaderKeys, key)
+		sc.Mutators = append(sc.Mutators, rng.Intn(10) < 3)
 		start := rng.Intn(nPhases)
 		if s2 := rng.Intn(nPhases); s2 < start {
 			start = s2
@@ -411,9 +420,12 @@ type reader struct {
 	started   chan struct{}
 	done      chan struct{}
 
-	call     int64  // valid once started is closed
-	rec      *opRec // valid once done is closed
-	launched bool   // coordinator only
+	call     int64           // valid once started is closed
+	rec      *opRec          // valid once done is closed
+	mutate   bool            // scribbles over its result right after Await returned it
+	result   core.SignedData // valid once done is closed
+	fpAtRet  string          // deep fingerprint taken the moment Await returned
+	launched bool            // coordinator only
 	released atomic.Bool
 }
 
@@ -512,12 +524,24 @@ func (e *env) runAwait(rd *reader) {
 	}
 	if err == nil {
 		rec.Res = resOK
+		// Deep fingerprint at the moment of return: no harness lock is held, nothing was touched yet.
 		fp, ferr := fingerprint(v)
+		rd.result, rd.fpAtRet = v, fp
+		if rd.mutate {
+			// This caller owns what it received and modifies it in place.
+			if scribble(v) {
+				rec.Note = "scribbled over its result after return"
+				e.r.Count("results_scribbled_by_reader", 1)
+			} else {
+				rd.mutate = false // plain value struct: nothing reachable to modify
+				e.r.Count("results_without_shared_memory_not_scribbled", 1)
+			}
+		}
 		id, known := e.byFP[fp]
 		switch {
 		case ferr != nil || !known:
 			rec.OutVal = -1
-			rec.Note = "unknown value: " + kit.Short(fp, 200)
+			rec.Note = "value differs from everything ever passed to Store: " + kit.Short(fp, 200)
 			e.addOp(rec)
 			e.violation([]int{rd.key}, e.sig("await", "returned-value-never-stored"),
 				fmt.Sprintf("%s.Await returned a value whose content equals no value ever passed to Store", e.impl),
@@ -992,7 +1016,9 @@ func runCase(c *kit.Case) {
 	go func() { defer close(runDone); e.db.Run(runCtx) }()
 
 	for i := 0; i < sc.Readers; i++ {
-		e.readers = append(e.readers, e.newReader(i, sc.ReaderKeys[i], false, 0))
+		rd := e.newReader(i, sc.ReaderKeys[i], false, 0)
+		rd.mutate = sc.Mutators[i]
+		e.readers = append(e.readers, rd)
 	}
 
 	for pi, ph := range sc.Phases {
@@ -1075,7 +1101,27 @@ func runCase(c *kit.Case) {
 	if e.broken.Load() {
 		return
 	}
+	e.recheckResults()
 	e.analyse()
+}
+
+// recheckResults: every goroutine of the case has finished. A result that its own reader did not
+// touch must still be what it was when Await returned it; otherwise it shares memory with the
+// store or with another caller's result and was changed by that caller.
+func (e *env) recheckResults() {
+	for _, rd := range append(append([]*reader(nil), e.readers...), e.probes...) {
+		if !isClosed(rd.done) || rd.result == nil || rd.mutate {
+			continue
+		}
+		e.r.Count("unmodified_results_rechecked_at_end", 1)
+		fp, err := fingerprint(rd.result)
+		if err == nil && fp == rd.fpAtRet {
+			continue
+		}
+		e.violation(nil, e.sig("await", "result-changed-after-return"),
+			fmt.Sprintf("%s: a value returned by Await(key %d) changed after it was returned although its reader never touched it (another caller modified its own result / the stored object)", e.impl, rd.key),
+			map[string]any{"await": rd.rec, "at_return": kit.Short(rd.fpAtRet, 300), "at_end": kit.Short(fp, 300)})
+	}
 }
 
 // analyse applies the history oracles and records the evidence counters of one finished case.
